@@ -506,7 +506,12 @@ void ConfigObject::DumpObjects(const String& filename, int attributeTypes)
 
 void ConfigObject::RestoreObject(const String& message, int attributeTypes)
 {
-	Dictionary::Ptr persistentObject = JsonDecode(message);
+	Value decoded = JsonDecode(message);
+
+	if (!decoded.IsObjectType<Dictionary>())
+		BOOST_THROW_EXCEPTION(std::invalid_argument("State file record must be a dictionary."));
+
+	Dictionary::Ptr persistentObject = decoded;
 
 	String type = persistentObject->Get("type");
 	String name = persistentObject->Get("name");
